@@ -223,6 +223,36 @@ def run(tier, seed):
         rep.violation(key, f"{c['key']} ({dr}): a canonical encoding of the definition is not read and written back unchanged: {h[:160]}",
                       {"container": c["key"], "wowm": f"{os.path.relpath(c['file'], REPO)}:{c['line']}", "direction": dr, "input_frame_hex": fr.hex(),
                        "implementation": h[:400], "expected": f"ok {fr.hex()[:80]}... consumed={len(fr)}", "replay_cmd": f"echo '{rq[:20000]}' | {har}"})
+    # ---- fourth stream: dictionary values.  Hand-written conversions of built-in scalar types (Population, DateTime, ...) treat particular
+    # numbers specially; the numeric literals of those sources, and their neighbours as f32 bit patterns / integers, are put into every
+    # wide-enough plain integer field (T-gen of the dictionary: tools/pyenc.literal_pool); read -> write must still be the identity
+    dreq_, dmeta_ = [], []
+    pool_login = pyenc.literal_pool(REPO, "login")
+    pool_world = pyenc.literal_pool(REPO, "world")
+    has_int4 = lambda c: any(c["tokens"][k] == "int" and c["tokens"][k + 1] in ("4", "8") for k in range(len(c["tokens"]) - 1))
+    lg = [c for c in plain if c["lib"] == "login" and has_int4(c)]
+    wd = [c for c in plain if c["lib"] != "login" and has_int4(c)]
+    jobs_ = [(c, v) for c in lg for v in pool_login] + [(wd[prng.below(len(wd))], v) for v in pool_world for _ in range(1 if tier == "quick" else 4)]
+    for c, v in jobs_:
+        try:
+            body = pyenc.encode(c["tokens"], prng, 1, None, intval=v)
+        except (pyenc.Unsupported, OverflowError, ValueError):
+            continue
+        for dr in directions(c)[:1]:
+            fr = frame(libname(c), dr, c["opcode"], body)
+            dreq_.append(f"codec {libname(c)} {dr} {fr.hex()}")
+            dmeta_.append((c, dr, fr, v))
+    do_ = run_parallel(har, dreq_, jobs=12) if dreq_ else []
+    n_dict_ok = 0
+    for (c, dr, fr, v), rq, h in zip(dmeta_, dreq_, do_):
+        if h.startswith("ok") and h.split()[1] == fr.hex() and f"consumed={len(fr)} " in h + " ":
+            n_dict_ok += 1
+            continue
+        if not h.startswith("ok"):
+            continue          # the value is outside a field's domain (enum-like alias, DateTime): rejection is C04's subject, silence is not
+        key, known_shape = classify(c, fr, h)
+        rep.violation(key if known_shape else f"C01/dictionary-value/{c['key']}", f"{c['key']} ({dr}): with the dictionary value {v} ({v:#x}) in its integer fields the message is read but written back differently: {h[:160]}",
+                      {"container": c["key"], "direction": dr, "value": v, "input_frame_hex": fr.hex(), "implementation": h[:400], "replay_cmd": f"echo '{rq[:20000]}' | {har}"})
     # ---- third stream: compressed members / compressed bodies (u32 decompressed size + zlib stream).  Frames from the reference encoder;
     # read -> write must reproduce every byte outside the zlib stream (except the header's size field) and the same decompressed payload
     import zlib
@@ -289,7 +319,7 @@ def run(tier, seed):
         "theorems": po["theorems"],
         "containers_total": len(conts), "containers_exercised": covered,
         "containers_outside_model": {"compressed (translator)": len(uns), **{f"built-in {k}": v for k, v in uns_kinds.items()}},
-        "evaluations": len(hreq) + len(zreq), "distinct_nontrivial": len(distinct), "frames_ok": n_ok, "compressed_stream": {"frames": len(zreq), "ok": n_zok},
+        "evaluations": len(hreq) + len(zreq), "distinct_nontrivial": len(distinct), "frames_ok": n_ok, "compressed_stream": {"frames": len(zreq), "ok": n_zok}, "dictionary_stream": {"values_login": len(pool_login), "values_world": len(pool_world), "frames": len(dreq_), "identical": n_dict_ok},
         "builtin_type_stream": {"frames": n_prim_frames, "reference_encoder_cross_checked_against_lean": n_x, "builtins_without_payload_generator": dict(prim_unsupported)},
         "rule": f"per version-expanded message: directed samples in which every steering variable cycles through every value it is compared with (and one it is not) / every single flag mask, none, all — so every if / else-if / else arm is taken — plus {ns} random samples (arrays 0..4 or 0..9 elements); both directions for msg; distinct = distinct (container, direction, frame)",
         "samples": [{"request": hreq[i][:200], "implementation": ho[i][:200]} for i in (0, len(hreq) // 2, len(hreq) - 1)],
